@@ -92,3 +92,57 @@ def eval_value_source(model, s, data_map):
                 del _state["children"][:]
         except Exception:  # noqa  - a hook must never change what the library does
             pass
+
+
+def _short(text):
+    import hashlib
+
+    return hashlib.sha1(str(text).encode()).hexdigest()[:12]
+
+
+def _sub_names(stub):
+    """names of the sub-queries a step reads from (tables and common table expressions)"""
+    out = []
+    for attr in ("sub_sql", "sub_sql1", "sub_sql2"):
+        sub = getattr(stub, attr, None)
+        if sub is not None:
+            out.append(str(sub.near_sql.quoted_query_name))
+    return out
+
+
+def cte_event(kind, cte_cache, ops_key, cte, stub, sequence):
+    """one event per common table expression emitted or re-used while a statement is put into WITH form"""
+    fh = _out()
+    if fh is None:
+        return
+    try:
+        subs = []
+        for attr in ("sub_sql", "sub_sql1", "sub_sql2"):
+            sub = getattr(stub, attr, None)
+            if sub is not None:
+                subs.append({"name": str(sub.near_sql.quoted_query_name), "is_cte": type(sub.near_sql).__name__ == "NearSQLCommonTableExpression"})
+        # statements are numbered: the first entry stored in a fresh cache starts a new statement
+        stmt = 0
+        if cte_cache is not None:
+            stmts = _state.setdefault("stmts", {})
+            if (kind == "emit") and (len(cte_cache) <= 1):
+                _state["stmt_count"] = _state.get("stmt_count", 0) + 1
+                stmts[id(cte_cache)] = _state["stmt_count"]
+            stmt = stmts.get(id(cte_cache), 0)
+        ev = {
+            "sqlgen": kind,
+            "seq": _state["seq"],
+            "cache": stmt,
+            "key": _short(ops_key),
+            "name": str(cte.quoted_query_name),
+            # content of the requested step: its terms, suffix and the names it reads from
+            "sig": _short([type(stub).__name__, list((getattr(stub, "terms", None) or {}).items()),
+                           getattr(stub, "suffix", None), [x["name"] for x in subs]]),
+            "refs": [x["name"] for x in subs if x["is_cte"]],
+            "defined": [str(k) for k, v in sequence],
+        }
+        _state["seq"] += 1
+        fh.write(json.dumps(ev) + "\n")
+        fh.flush()
+    except Exception:  # noqa  - a hook must never change what the library does
+        pass
